@@ -265,8 +265,9 @@ fn check_seq(p: &Props, sv: &SeqView, info: &PlanInfo, last_only: bool, out: &mu
                                 if p.c01 {
                                     out.push(v("C01", sig, msg.clone()));
                                 }
-                                if p.c07 && involves_batch {
-                                    out.push(v("C07", sig, msg));
+                                // (inside a batch the inner systems enjoy the same isolation: an inner layout is C07's too)
+                                if p.c07 && (involves_batch || sv.depth > 0) {
+                                    out.push(v("C07", if involves_batch { sig } else { "inner-conflict-side-by-side" }, msg));
                                 }
                             }
                         }
@@ -303,22 +304,36 @@ fn check_seq(p: &Props, sv: &SeqView, info: &PlanInfo, last_only: bool, out: &mu
         sa < sb || (sa == sb && ga == gb && pa < pb)
     };
 
-    if p.c02 {
+    // (C07: inside a batch the inner systems enjoy the same ordering guarantees)
+    let c07_inner = p.c07 && sv.depth > 0;
+    if p.c02 || c07_inner {
         for id in &stage_members {
             for d in &info.nodes[*id].deps {
                 if let Some(a) = names.get(d.as_str()) {
                     if !after(*a, *id) {
-                        out.push(v("C02", "dependent-not-after-dependency", format!("system {} depends on {:?} (= {}) but is not ordered after it: {}", id, d, a, l.short())));
+                        let msg = format!("system {} depends on {:?} (= {}) but is not ordered after it: {}", id, d, a, l.short());
+                        if p.c02 {
+                            out.push(v("C02", "dependent-not-after-dependency", msg.clone()));
+                        }
+                        if c07_inner {
+                            out.push(v("C07", "inner-dependent-not-after-dependency", format!("inside a batch (depth {}): {}", sv.depth, msg)));
+                        }
                     }
                 }
             }
         }
     }
-    if p.c03 {
+    if p.c03 || c07_inner {
         for x in &stage_members {
             for y in &stage_members {
                 if info.nodes[*x].barriers_before < info.nodes[*y].barriers_before && pos[x].0 >= pos[y].0 {
-                    out.push(v("C03", "barrier-not-honoured", format!("system {} (before a barrier) is in stage {} but system {} (after it) is in stage {}: {}", x, pos[x].0, y, pos[y].0, l.short())));
+                    let msg = format!("system {} (before a barrier) is in stage {} but system {} (after it) is in stage {}: {}", x, pos[x].0, y, pos[y].0, l.short());
+                    if p.c03 {
+                        out.push(v("C03", "barrier-not-honoured", msg.clone()));
+                    }
+                    if c07_inner {
+                        out.push(v("C07", "inner-barrier-not-honoured", format!("inside a batch (depth {}): {}", sv.depth, msg)));
+                    }
                 }
             }
         }
@@ -588,6 +603,27 @@ pub fn check_state(p: &Props, ops: &[Op], info: &PlanInfo, obs: &Obs, last_only:
         }
     }
     if p.c12 {
+        if let Some((ok, runs, lay, again)) = &obs.after_rejected_conversion {
+            if !ok {
+                out.push(v("C12", "dispatcher-broken-after-rejected-conversion", "the dispatcher handed back by a rejected try_into_sendable panicked in dispatch".to_string()));
+            } else {
+                for n in info.nodes.iter().filter(|n| !info.rejected.contains(&n.id)) {
+                    let exp = expected_runs(info, n.id, 1, 1);
+                    if runs[n.id] != exp {
+                        let sig = if n.kind == Kind::Tl { "tl-lost-by-rejected-conversion" } else { "system-lost-by-rejected-conversion" };
+                        out.push(v("C12", sig, format!("try_into_sendable was (rightly) rejected; the dispatcher handed back ran system {} {} times in one dispatch, expected {}: {}", n.id, runs[n.id], exp, l.short())));
+                    }
+                }
+                match lay {
+                    Some(l2) if l2.stages == l.stages && l2.tl == l.tl => {}
+                    Some(l2) => out.push(v("C12", "tl-lost-by-rejected-conversion", format!("the dispatcher handed back by a rejected conversion has layout {} (thread-local {:?}), before the attempt {} (thread-local {:?})", l2.short(), l2.tl, l.short(), l.tl))),
+                    None => {}
+                }
+            }
+            if *again {
+                out.push(v("C12", "sendable-with-tl", "a second try_into_sendable on the dispatcher handed back by a rejected one succeeded although thread-local systems were registered".to_string()));
+            }
+        }
         if let Some(rr) = &obs.runs_by_run_now {
             for n in info.nodes.iter().filter(|n| n.kind == Kind::Tl && n.parent.is_none() && !info.rejected.contains(&n.id)) {
                 if rr[n.id] != 1 {
@@ -608,10 +644,10 @@ pub fn check_state(p: &Props, ops: &[Op], info: &PlanInfo, obs: &Obs, last_only:
                     }
                     continue;
                 }
-                let exp = expected_runs(info, n.id, 4, 3);
+                let exp = expected_runs(info, n.id, 6, 5);
                 if runs[n.id] != exp {
                     let sig = if runs[n.id] < exp { "system-skipped" } else { "system-ran-too-often" };
-                    out.push(v("C04", sig, format!("system {} ran {} times after [dispatch_seq, dispatch_par, dispatch, dispatch_thread_local, RunNow::run_now], expected {}: {}", n.id, runs[n.id], exp, l.short())));
+                    out.push(v("C04", sig, format!("system {} ran {} times after [dispatch_seq, dispatch_par, dispatch, dispatch_thread_local, RunNow::run_now, dispatch on a second world, dispatch on the first world], expected {}: {}", n.id, runs[n.id], exp, l.short())));
                 }
             }
         }
